@@ -197,6 +197,42 @@ def model_check(ctx, module, cfg, **kw):
     return r
 
 
+def model_check_many(ctx, jobs, workers_each=4, timeout=3000):
+    """Run several independent design configs concurrently.  jobs = [(module, cfg, extra_kwargs)]."""
+    import threading
+    results = [None] * len(jobs)
+    errors = []
+    dirs = []
+    for i, job in enumerate(jobs):
+        ctx._n += 1
+        dirs.append(ctx.dir("tlcp%d" % ctx._n))
+
+    def work(i):
+        module, cfg, kw = jobs[i]
+        try:
+            kw = dict(kw or {})
+            kw.setdefault("workers", workers_each)
+            kw.setdefault("timeout", timeout)
+            results[i] = tlc(ctx, module, cfg, workdir=dirs[i], **kw)
+        except Exception as e:      # noqa
+            errors.append(e)
+
+    ths = [threading.Thread(target=work, args=(i,)) for i in range(len(jobs))]
+    for t in ths:
+        t.start()
+    for t in ths:
+        t.join()
+    if errors:
+        raise errors[0]
+    for (module, cfg, _), r in zip(jobs, results):
+        ctx.states += r["distinct"]
+        ctx.transitions += r["generated"]
+        ctx.notes.append("model %s/%s: %d distinct states, %d generated, %.1fs"
+                         % (module, cfg if "\n" not in cfg else "(inline cfg)", r["distinct"], r["generated"], r["wall"]))
+        log(ctx.notes[-1])
+    return results
+
+
 def gen_cases(ctx, module, cfg, outname="cases.ndjson", **kw):
     """Role B: TLC writes cases (ndJsonSerialize in an ASSUME or an invariant)."""
     kw.setdefault("workers", 1)
@@ -510,5 +546,5 @@ def run_driver_batches(ctx, drv, sub, cases, args=(), batch=5000, timeout=600, r
                     case = None
             if case is None:
                 raise Inconclusive("driver %s died (%s) with no case in flight:\n%s" % (sub, how, out[-3000:]))
-            crashes.append((case, how, out[-3000:]))
+            crashes.append((case, how, out[:1200] + "\n...\n" + out[-800:]))
     return rows, crashes
